@@ -446,9 +446,41 @@ def walk_function(fi):
     from ..normalise import single_exit
     from ..srcmodel import clone
     stmts, _ = single_exit(clone(fi.body), '__ret__')
+    stmts = explicit_reversals(stmts)
     be = BlockEval(fi.qualname, loop_ok=lambda s: True)
     be.run(stmts)
     return be
+
+
+def explicit_reversals(stmts):
+    """`L.reverse()` on a local list (top level of the function) reverses the ONE list every alias `A = L` made before also names: written out
+    as `L = L[::-1]; A = L` so that what each name denotes afterwards is visible to a reader of values."""
+    out = []
+    aliases = {}          # list name -> names bound to the same object so far
+    for st in stmts:
+        if isinstance(st, ast.Assign) and len(st.targets) == 1 and isinstance(st.targets[0], ast.Name):
+            t = st.targets[0].id
+            for k in list(aliases):
+                aliases[k].discard(t)
+            aliases.pop(t, None)
+            if isinstance(st.value, ast.Name):
+                src = st.value.id
+                root = next((k for k, v in aliases.items() if src == k or src in v), src)
+                aliases.setdefault(root, set()).add(t)
+        if isinstance(st, ast.Expr) and isinstance(st.value, ast.Call) and isinstance(st.value.func, ast.Attribute) and st.value.func.attr == 'reverse' \
+                and isinstance(st.value.func.value, ast.Name) and not st.value.args:
+            L = st.value.func.value.id
+            root = next((k for k, v in aliases.items() if L == k or L in v), L)
+            group = {root} | aliases.get(root, set())
+            new = ast.parse('%s = %s[::-1]' % (L, L)).body[0]
+            out.append(ast.copy_location(new, st))
+            for a in sorted(group - {L}):
+                out.append(ast.copy_location(ast.parse('%s = %s' % (a, L)).body[0], st))
+            for x in out[-len(group):]:
+                ast.fix_missing_locations(x)
+            continue
+        out.append(st)
+    return out
 
 
 NODE_SEQUENCES = ('self.maximal_cliques()', 'self.tree.nodes()', 'self.tree.nodes', 'list(self.tree.nodes())', 'list(self.tree.nodes)', 'list(self.tree)',
